@@ -89,6 +89,8 @@ type Op struct {
 	Consistent bool `json:"consistent,omitempty"` // ConsistentRead on Get / Query / Scan / BatchGet
 	TrySpec    bool `json:"trySpec,omitempty"`    // execute the request even if the model calls it speculative (3.2)
 	Repeat     bool `json:"repeat,omitempty"`     // the driver sends the same request object twice and returns the second response
+	// Shared: every call that carries the same tag passes the very same request object to the client (Get, Query, Scan)
+	Shared string `json:"shared,omitempty"`
 }
 
 // Error classes.
